@@ -16,6 +16,7 @@ import json
 
 from vlib import core
 from vlib import x_C17 as X
+from vlib import x_C17c as XC
 from vlib.core import enc_Z
 
 S = X.S
@@ -233,6 +234,8 @@ def run(ctx):
                 "passwords x 3 jumps x credential change. non-trivial = some mapped login is attempted at least twice; distinct by "
                 "(config, credentials, event list)")
     ctx.assumptions += [
+        "concurrency: a `with self._lock:` block and a single dict.get()/len() are atomic steps (lock semantics, GIL); schedules are explored at "
+        "line granularity at the lines of login that touch the caches, the lock or the back-end",
         "SHA3-512 has no collisions on the occurring inputs and salt++login++password is unambiguous for a fixed login because every "
         "salt str(time_ns) has the same length (19 digits between 2001 and 2286): digests are free constructors in the model",
         "int(d / 1000 / 1000 / 1000) on CPython floats equals truncation towards zero for |d| < 10^16 ns (115 days); validated by the "
@@ -353,6 +356,10 @@ def run(ctx):
     # ------------------------------------------------------------ the age expression (float truncation) vs age_s
     age_suite(ctx)
 
+    # ------------------------------------------------------------ concurrency: lock discipline (tie T) + two-thread monitor
+    lock_obligations(ctx)
+    concurrency(ctx)
+
     # ------------------------------------------------------------ report violations (shrunk, one per rule)
     reported = set()
     for case, (rule, idx, text), label in failures:
@@ -367,6 +374,95 @@ def run(ctx):
                            note="replay: ./check C17 --replay <this file> re-runs the history on the real BaseAuth.login"),
                       signature=None)
     ctx.extra["monitor_failures_seen"] = len(failures)
+
+
+def lock_obligations(ctx):
+    """Tie T for the concurrency dimension: Gen/LoginLockGen.v (regenerated by ctx.prove()) against Proofs/C17Lock.v."""
+    import os
+    gen = os.path.join(core.COQ, "Gen", "LoginLockGen.v")
+    text = open(gen).read() if os.path.exists(gen) else "translation failed: no file"
+    ctx.obligation("translate:LoginLockGen", "translation failed" not in text, text[:600] if "translation failed" in text else "")
+    with core.coq_lock():
+        rc, out = core.make(["Proofs/C17Lock.vo"])
+    lemmas = ["Gen_cache_accesses_locked", "Gen_cache_access_shape"]
+    failed_at = None
+    err = ""
+    if rc != 0:
+        _, failed_at, err = core.locate_failure(out, default_file="Proofs/C17Lock.v")
+    broken = False
+    for n in lemmas:
+        if rc != 0 and (failed_at == n or failed_at not in lemmas):
+            broken = True
+        ctx.obligation("Proofs/C17Lock.v:%s" % n, not broken, (err if failed_at in (n, None) else "not reached") if broken else "")
+    if rc != 0:
+        rows = [l.strip() for l in text.splitlines() if "mkAccess" in l]
+        ctx.extra["cache_access_table"] = rows
+        ctx.notes.append("lock discipline broken: some access to a cache dictionary other than a single atomic read is outside "
+                         "`with self._lock:` (or the lock is taken by bare acquire()/release()); see cache_access_table")
+
+
+def conc_scenarios(ctx):
+    cfg = base_cfg(exp_s=15, exp_f=90)
+    creds = [["alice", "pa", "alice"], ["bob", "pb", "bob"], ["carol", "pc", "carol"]]
+    mk = lambda prefix, threads, **kw: dict(cfg=kw.get("cfg", cfg), t0=T0, creds=creds, prefix=prefix, threads=threads)  # noqa: E731
+    fixed = [
+        ("expired-failed-entry,two-other-logins", mk([["A", "bob", "w"], ["T", 91 * S]], [["alice", "pa", 0], ["carol", "pc", 0]])),
+        ("expired-success-entry,same-login-twice", mk([["A", "alice", "pa"], ["T", 16 * S]], [["alice", "pa", 0], ["alice", "pa", 0]])),
+        ("expired-failed-entry,same-attempt-twice", mk([["A", "bob", "w"], ["T", 91 * S]], [["bob", "w", 0], ["bob", "w", 0]])),
+        ("failed-entry-expires-between-the-threads", mk([["A", "bob", "w"], ["T", 91 * S - 1]], [["bob", "w", 0], ["alice", "pa", 1]])),
+        ("success-entry-expires-between-the-threads", mk([["A", "alice", "pa"], ["T", 16 * S - 1]], [["alice", "pa", 0], ["alice", "pa", 1]])),
+        ("valid-success-entry,right-and-wrong-password", mk([["A", "alice", "pa"], ["T", 5 * S]], [["alice", "pa", 0], ["alice", "w", 0]])),
+        ("no-entries,same-login-twice", mk([], [["alice", "pa", 0], ["alice", "pa", 0]])),
+        ("two-expired-failed-entries,two-logins", mk([["A", "bob", "w"], ["A", "carol", "w"], ["T", 91 * S]],
+                                                     [["bob", "w", 0], ["carol", "pc", 0]])),
+    ]
+    if not ctx.quick:
+        fixed.append(("three-threads,expired-failed-and-success", mk([["A", "bob", "w"], ["A", "alice", "pa"], ["T", 91 * S]],
+                                                                     [["alice", "pa", 0], ["alice", "pa", 0], ["bob", "w", 0]])))
+    rng = ctx.rng
+    pool = [["alice", "pa"], ["alice", "w"], ["bob", "pb"], ["bob", "w"], ["carol", "pc"]]
+    out = list(fixed)
+    for i in range(ctx.n(6, 60)):
+        c = base_cfg(exp_s=rng.choice([0, 1, 15]), exp_f=rng.choice([1, 3, 90]))
+        prefix = []
+        for _ in range(rng.randint(1, 4)):
+            prefix.append(["A"] + rng.choice(pool))
+            if rng.random() < 0.3:
+                prefix.append(["T", rng.choice([1, S, (c["exp_s"] + 1) * S])])
+        e = rng.choice([c["exp_s"], c["exp_f"]])
+        prefix.append(["T", rng.choice([(e + 1) * S - 1, (e + 1) * S, (e + 1) * S - 2, e * S, 1])])
+        th = [rng.choice(pool) + [rng.choice([0, 0, 1, 2, S])] for _ in range(2)]
+        if rng.random() < 0.4:
+            th[1] = [th[0][0], th[0][1], th[1][2]]
+        out.append(("random-%d" % i, mk(prefix, th, cfg=c)))
+    return out
+
+
+def concurrency(ctx):
+    """Two (three) threads inside the real login under a deterministic scheduler; every schedule with a bounded number of
+    preemptions + seeded random schedules: no exception, all terminate, lock free afterwards, users = some serial order."""
+    lines = XC.yield_lines()
+    ctx.extra["concurrent_scheduling_points"] = sorted(lines)
+    reported = set()
+    total = 0
+    for label, scn in conc_scenarios(ctx):
+        n, bad = XC.check_scenario(scn, lines, ctx.n(2, 3), rng=ctx.rng, n_random=ctx.n(10, 200), budget=ctx.n(120, 3000))
+        total += n
+        ctx.case(("concurrent", json.dumps(scn, sort_keys=True)), nontrivial=True,
+                 sample=dict(kind="concurrent", label=label, prefix=scn["prefix"], threads=scn["threads"], schedules=n) if label.startswith("expired-failed") else None)
+        ctx.count("kind:concurrent-scenario")
+        if bad and bad["rule"] not in reported:
+            reported.add(bad["rule"])
+            ctx.violation("C17 %s: %s" % (bad["rule"], bad["text"]),
+                          dict(rule=bad["rule"], scenario=scn, label=label, schedule=bad["schedule"],
+                               results=[list(r) for r in bad["results"]],
+                               executed_lines=["thread %d line %d" % (t, ln) for t, ln in bad["trace"]],
+                               note="replay: ./check C17 --replay <this file> re-runs this schedule on the real BaseAuth.login; "
+                                    "schedule = the thread chosen at each scheduling point (lines of login that touch the caches, "
+                                    "the lock or the back-end)"),
+                          signature=None)
+    ctx.count("concurrent-schedules-executed", total)
+    ctx.log("concurrency: %d schedules executed, rules violated: %s" % (total, sorted(reported) or "none"))
 
 
 def classify(ctx, disagreeing, allpairs):
@@ -436,6 +532,16 @@ def age_suite(ctx):
 def replay(ctx, path):
     data = json.load(open(path))
     rp = data.get("replay", {})
+    if rp.get("scenario"):
+        rec, bad = XC.replay_schedule(rp["scenario"], rp["schedule"])
+        print("prefix:", rp["scenario"]["prefix"])
+        print("threads:", rp["scenario"]["threads"])
+        print("schedule:", rp["schedule"])
+        for t, ln in rec["trace"]:
+            print("  thread %d line %d" % (t, ln))
+        print("results:", rec["results"], "lock left held:", rec["lock_left_held"])
+        print("monitor:", bad)
+        return 1 if bad else 0
     case = rp.get("case")
     if not case:
         print(json.dumps(data, indent=1)[:4000])
